@@ -157,8 +157,73 @@ class Gen(object):
             op = getattr(self, 'g_' + k)(m)
             if op is not None:
                 op.setdefault('kind', k)
+                if not op.get('defect') and \
+                        self.chance(self.invalid_rate * 0.12):
+                    self.schema_break(op)
                 return op
         return self.g_rp_create(m) or self.g_read(m)
+
+    def schema_break(self, op):
+        """Turn an otherwise valid write into a schema violation (one reason
+        for rejection: the document itself)."""
+        k = op['kind']
+        b = op.get('b')
+        r = self.rng
+
+        def break_alloc_body(body):
+            a = body.get('allocations')
+            choice = r.randrange(4)
+            if choice == 0 and a:
+                if isinstance(a, list):
+                    res = a[r.randrange(len(a))]['resources']
+                else:
+                    res = a[self.pick(sorted(a))]['resources']
+                res[self.pick(sorted(res))] = 0       # minimum is 1
+            elif choice == 1 and 'user_id' in body:
+                del body['user_id']
+            elif choice == 2:
+                body['bogus'] = 1                     # additionalProperties
+            else:
+                body['allocations'] = 'nope'
+        if k == 'alloc_put':
+            break_alloc_body(b)
+        elif k == 'alloc_post':
+            if not b:
+                return
+            # the n-th of m entries is malformed
+            break_alloc_body(b[self.pick(sorted(b))])
+        elif k == 'reshape':
+            if b['allocations'] and r.random() < 0.5:
+                break_alloc_body(b['allocations'][self.pick(
+                    sorted(b['allocations']))])
+            else:
+                rp = self.pick(sorted(b['inventories']))
+                b['inventories'][rp].pop('resource_provider_generation', None)
+        elif k == 'inv_put_all':
+            if b['inventories'] and r.random() < 0.6:
+                rc = self.pick(sorted(b['inventories']))
+                b['inventories'][rc]['total'] = 0     # minimum is 1
+            else:
+                b.pop('resource_provider_generation', None)
+        elif k == 'inv_put_one':
+            b['reserved'] = -1
+        elif k == 'inv_post':
+            b.pop('total', None)
+        elif k == 'rpt_put':
+            if r.random() < 0.5:
+                b['traits'] = 'CUSTOM_TR_A'
+            else:
+                b.pop('resource_provider_generation', None)
+        elif k == 'agg_put':
+            if isinstance(b, dict):
+                b['aggregates'] = list(b['aggregates']) + ['not-a-uuid']
+            else:
+                b.append('not-a-uuid')
+        elif k == 'rp_create':
+            b['name'] = ''
+        else:
+            return
+        op['defect'] = 'schema'
 
     def g_rp_create(self, m):
         missing = self.missing_p(m)
@@ -864,4 +929,6 @@ def op_brief(op):
     out = {'m': op['m'], 'p': op['p'], 'v': op.get('v')}
     if op.get('b') is not None:
         out['b'] = copy.deepcopy(op['b'])
+    if op.get('defect') == 'schema':
+        out['defect'] = 'schema'
     return out
